@@ -1024,7 +1024,12 @@ func (p *Program) guardedLeaves(v ssa.Value) []guardedLeaf {
 							if errChecked && returnsNonNilError(rt) {
 								return
 							}
+							saved := lastPred
+							if _, isPhi := rt.Results[x.Index].(*ssa.Phi); !isPhi {
+								lastPred = rt.Block() // the value is selected by reaching this return
+							}
 							walk(rt.Results[x.Index], with(guardsOf(rt.Block())), depth+1)
+							lastPred = saved
 						}
 					})
 					return
@@ -1034,7 +1039,12 @@ func (p *Program) guardedLeaves(v ssa.Value) []guardedLeaf {
 			if callee := x.Call.StaticCallee(); callee != nil && !x.Call.IsInvoke() && p.isTransparent(callee) && callee.Signature.Results().Len() == 1 {
 				eachInstr(callee, func(in ssa.Instruction) {
 					if rt, ok := in.(*ssa.Return); ok && len(rt.Results) == 1 {
+						saved := lastPred
+						if _, isPhi := rt.Results[0].(*ssa.Phi); !isPhi {
+							lastPred = rt.Block() // the value is selected by reaching this return
+						}
 						walk(rt.Results[0], with(guardsOf(rt.Block())), depth+1)
+						lastPred = saved
 					}
 				})
 				return
